@@ -367,6 +367,21 @@ class IoTr2(IoTr):
                 return f'({t}).props', True, 'Dict'
             if k == 'Shape' and e.attr == 'dt':
                 return f'({t}).dt', True, 'OptTI'
+        if isinstance(e, ast.Attribute) and e.attr == 'dt' and isinstance(e.value, ast.Attribute) and isinstance(e.value.value, ast.Name) \
+                and self.env.get(e.value.value.id, (None, None))[1] == 'KTime' and e.value.attr in ('timestamp', 'begin', 'end'):
+            acc = {'timestamp': 'ktTimestampDt', 'begin': 'ktBeginDt', 'end': 'ktEndDt'}[e.value.attr]
+            return f'{acc} {self.env[e.value.value.id][0]}', False, 'Int'
+        if isinstance(e, ast.Call) and isinstance(e.func, ast.Name) and e.func.id == 'TimeInterval' and len(e.args) == 2 and not e.keywords:
+            def mkti(a):
+                if [x[1] for x in a] != ['Int', 'Int']:
+                    return None
+                return f'tiOfInts {a[0][0]} {a[1][0]}'
+            sub = IoTr2(self.qual, self.fn, self.env, self.nt, self.lean, self.localfns, self.shared)
+            sub.narrow = narrow
+            kinds = [sub.expr(a)[2] for a in e.args]
+            if kinds == ['Int', 'Int']:
+                t, _p = self.bind_args(e.args, mkti)
+                return t, False, 'TI'
         if isinstance(e, ast.Call) and isinstance(e.func, ast.Name):
             f, kws = e.func.id, {k.arg: k.value for k in e.keywords}
             if f == 'KmlDateTime' and len(e.args) + len(kws) == 1 and set(kws) <= {'dt'}:
@@ -606,6 +621,10 @@ class IoTr2(IoTr):
                 return f'(shapeIsA Cls.{c} {t})', True
             if e.func.id == 'issubclass' and k == 'PTag' and pure and c in self.CLASS_TAGS:
                 return f'(PTag.isSub {t} {self.CLASS_TAGS[c]})', True
+        if isinstance(e, ast.Call) and isinstance(e.func, ast.Name) and e.func.id == 'isinstance' and len(e.args) == 2 \
+                and isinstance(e.args[1], ast.Name) and e.args[1].id in ('TimeStamp', 'TimeSpan') and isinstance(e.args[0], ast.Name) \
+                and self.env.get(e.args[0].id, (None, None))[1] == 'KTime':
+            return f'({"ktIsStamp" if e.args[1].id == "TimeStamp" else "ktIsSpan"} {self.env[e.args[0].id][0]})', True
         if isinstance(e, ast.BoolOp) and isinstance(e.op, ast.And) and isinstance(e.values[0], ast.Name) \
                 and self.env.get(e.values[0].id, (None, None))[1] == 'NoneT':
             return 'false', True            # `None and …`: the instance is declared at None, the rest is not evaluated
@@ -980,7 +999,9 @@ def unit():
     k3 = Fn('CollectionBase.to_fastkml_folder', 'toFastkmlFolder', [('self', 'Coll'), ('folder_name', 'Str')])
     k3.reader, k3.ret_kind = True, 'KNode'
     k3.methods = {'to_fastkml_placemark': ('toFastkmlPlacemark', 'Shape', 'PM')}
-    fns += [k1, k2, k3]
+    k4 = Fn('TimeInterval._from_fastkml', 'tiFromFastkml', [('fastkml_time', 'KTime')], doc='`x.timestamp.dt` is the instant')
+    k4.reader, k4.ret_kind, k4.file = True, 'TI', 'time.py'
+    fns += [k1, k2, k3, k4]
     tg = Fn('CollectionBase.to_geopandas', 'toGeopandas', [('self', 'Coll'), ('include_properties', 'Incl')], nt='true',
             doc='what reaches `pd.DataFrame` / `GeoSeries.from_wkt`')
     tg.reader, tg.ret_kind = True, 'FrameW'
